@@ -24,6 +24,7 @@ import Mathlib.Tactic.FieldSimp
 import Mathlib.Tactic.Ring
 import Mathlib.Tactic.LinearCombination
 import Mathlib.Tactic.NormNum
+import Mathlib.Data.Rat.Cast.Order
 import PropsR.Gen.HitTimeReal
 import Sympler.Gen.CollideGen
 
@@ -429,6 +430,18 @@ theorem C08F_hit_reports_first_crossing (hg : GslSpec gsl) (hs : SortSpec sortL)
   linarith
 
 end
+
+/-- the distance polynomial IS the wall-normal component of `IntegratorVelocityVerlet::hitPos` (regenerated by t_collide) minus the wall
+coordinate: for a wall orthogonal to a coordinate axis at coordinate `x` (inward normal `+e_d`; for `-e_d` both sides change sign),
+`hitPos_d(t) − x = traj ((f/m)/2) v (r − x) t`.  So a root of `traj` is a time at which the position the code computes lies in the wall
+plane, and `traj > 0` means that position is inside. -/
+theorem C08F_traj_is_hitPos (r v t f m x : ℚ) (hm : m ≠ 0) :
+    ((Sympler.Gen.Collide.hitPos r v t f m : ℚ) : ℝ) - (x : ℝ) = traj (coefA (m : ℝ) (f : ℝ)) (v : ℝ) ((r : ℝ) - (x : ℝ)) (t : ℝ) := by
+  have hm' : (m : ℝ) ≠ 0 := by exact_mod_cast hm
+  unfold Sympler.Gen.Collide.hitPos traj coefA
+  push_cast
+  field_simp
+  ring
 
 /-- the constant the tree uses: `c_wt_time_eps = 0` (regenerated by t_collide from wall_triangle.cpp) -/
 theorem C08F_timeEps : Sympler.Gen.Collide.timeEps = 0 := by decide
